@@ -95,6 +95,13 @@ func runC17(c *core.Ctx) {
 		}
 		doNew[n] = f
 		c.Analysed(core.FuncName(f))
+		// pure delegation to the sibling (DoNewRequest → DoNewRequestWithBodyOptions(ctx, header, method, url, nil, "")): the
+		// sibling's own obligations cover it
+		if sib := c17delegatesTo(p, f); sib != "" && sib != n {
+			c.Pass("R1", "SimpleHTTPDef."+n+"/passes-method-url-body", p.Pos(f.Pos()), "delegates to "+sib+" with the same context, header, method and URL (no body, no content type)")
+			c.Pass("R2", "SimpleHTTPDef."+n+"/applies-header", p.Pos(f.Pos()), "delegates to "+sib+", which installs the header")
+			continue
+		}
 		ok := false
 		// (the request may be built in an unexported helper that gets the parameters passed on)
 		for _, fd := range core.DeepFind(p, f, func(ins ssa.Instruction) bool {
@@ -225,7 +232,7 @@ func runC17(c *core.Ctx) {
 			if r, ok := ins.(*ssa.Return); ok {
 				if call, isC := core.Resolve(core.RetVals(r)[0]).(*ssa.Call); isC {
 					if h := core.Callee(&call.Call); h != nil && core.FuncName(h) == "fpgo.MonadIONewGenerics" {
-						if mc, isMC := call.Call.Args[0].(*ssa.MakeClosure); isMC && mc.Fn == ssa.Value(eff) {
+						if fv := core.ResolveFuncValue(p, core.Unwrap(call.Call.Args[0])); fv != nil && fv.Fn == eff {
 							retOK = true
 						}
 					}
@@ -842,4 +849,48 @@ func c17poolSelftest() string {
 func c17isString(t types.Type) bool {
 	b, ok := t.Underlying().(*types.Basic)
 	return ok && b.Kind() == types.String
+}
+
+
+// c17delegatesTo: f (a DoNewRequest* method) only returns the result of a sibling DoNewRequest* method called with its own
+// receiver, context, header, method and URL in that order, any further arguments being nil / "" constants. Returns the
+// sibling's name or "".
+func c17delegatesTo(p *core.Prog, f *ssa.Function) string {
+	if len(f.Blocks) != 1 {
+		return ""
+	}
+	ret, ok := f.Blocks[0].Instrs[len(f.Blocks[0].Instrs)-1].(*ssa.Return)
+	if !ok || len(ret.Results) != 1 {
+		return ""
+	}
+	call, ok := core.Resolve(ret.Results[0]).(*ssa.Call)
+	if !ok {
+		return ""
+	}
+	g := core.Callee(&call.Call)
+	if g == nil || g == f || g.Pkg != p.Network || !strings.HasPrefix(g.Name(), "DoNewRequest") || len(call.Call.Args) < 5 || len(f.Params) < 5 {
+		return ""
+	}
+	for i := 0; i < 5; i++ {
+		if core.Unwrap(core.Resolve(call.Call.Args[i])) != ssa.Value(f.Params[i]) {
+			return ""
+		}
+	}
+	for _, a := range call.Call.Args[5:] {
+		k, isK := core.Unwrap(a).(*ssa.Const)
+		if !isK || !(k.Value == nil || k.Value.ExactString() == `""`) {
+			return ""
+		}
+	}
+	// nothing else happens in f
+	n := 0
+	core.Instrs(f, func(ins ssa.Instruction) {
+		if _, isC := ins.(ssa.CallInstruction); isC {
+			n++
+		}
+	})
+	if n != 1 {
+		return ""
+	}
+	return g.Name()
 }
